@@ -373,6 +373,13 @@ func VerifC03Fetch() {
 			payloads = append(payloads, p)
 		}
 		o.BodySection = sections
+	case 6:
+		// more data items in one response than the client's hand-off buffer holds
+		for i := 0; i < 36; i++ {
+			o.BinarySectionSize = append(o.BinarySectionSize, &imap.FetchItemBinarySectionSize{Part: []int{i + 1}})
+			binSizes = append(binSizes, uint32(i))
+		}
+		binSizes[35] = uint32(c02num(1))
 	default:
 		b := &imap.FetchItemBinarySection{Part: c02parts[nd.Choice(len(c02parts))], Peek: nd.Bool()}
 		bins = append(bins, b)
@@ -486,7 +493,11 @@ func VerifC03Fetch() {
 		nd.Assert(len(g.BinarySectionSize) == len(binSizes), "fetch-binary-size-count-differs")
 		for i := range binSizes {
 			if i < len(g.BinarySectionSize) {
-				nd.Assert(g.BinarySectionSize[i].Size == binSizes[i] && c02partEq(g.BinarySectionSize[i].Part, bins[0].Part), "fetch-binary-size-differs")
+				want := []int{i + 1}
+				if item != 6 {
+					want = bins[0].Part
+				}
+				nd.Assert(g.BinarySectionSize[i].Size == binSizes[i] && c02partEq(g.BinarySectionSize[i].Part, want), "fetch-binary-size-differs")
 			}
 		}
 	}
